@@ -91,6 +91,11 @@ class SymSet:
     """a set of paths.  Mutable like a python set (add/update rebind the term)."""
     __vf_symbolic__ = True
 
+    def __getattr__(self, k):
+        if k.startswith("__") and k.endswith("__"):
+            raise AttributeError(k)
+        raise EngineUnsupported("%s.%s is not modelled" % (type(self).__name__, k))
+
     def __init__(self, t=None, name="paths"):
         if t is None:
             nm = fresh(name)
